@@ -968,6 +968,42 @@ static int run_check(const std::string &prop, const std::string &tier)
                 ev += (i ? "," : "") + jstr(zero_probes[i]);
         ev += "],\n";
         ev += "  \"library_calls_by_entry\":" + calls + ",\n";
+        if (prop == "C19" || prop == "C08" || prop == "C20") {
+                // exported library functions (nm " T " of the archive) that no simulation called by name through the trampoline
+                std::string never = "[";
+                size_t n_never = 0, n_all = 0;
+                if (const char *need = getenv("ISALSIM_NEED")) {
+                        std::string dir = need;
+                        dir = dir.substr(0, dir.rfind('/'));
+                        std::string nm = read_file(dir + "/nm.txt");
+                        std::set<std::string> all;
+                        size_t i = 0;
+                        while (i < nm.size()) {
+                                size_t j = nm.find('\n', i);
+                                if (j == std::string::npos)
+                                        j = nm.size();
+                                std::string ln = nm.substr(i, j - i);
+                                i = j + 1;
+                                size_t k = ln.find(" T ");
+                                if (k == std::string::npos)
+                                        continue;
+                                std::string sym = ln.substr(k + 3);
+                                if (sym.find("_slver") != std::string::npos || sym == "TABLE")
+                                        continue;
+                                all.insert(sym);
+                        }
+                        n_all = all.size();
+                        for (auto &sym : all)
+                                if (!acc.calls.count(sym)) {
+                                        never += (n_never ? "," : "") + jstr(sym);
+                                        n_never++;
+                                }
+                }
+                never += "]";
+                ev += strfmt("  \"exported_functions\":%zu,\n  \"exported_functions_never_called_directly\":%zu,\n", n_all, n_never);
+                ev += "  \"exported_functions_never_called_directly_list\":" + never + ",\n";
+                ev += "  \"never_called_note\":\"<entry> / <entry>_mbinit / <entry>_dispatch_init are the dispatch trampolines and resolvers (reached through the public wrappers; resolvers are called directly by DispatchSim under C12/C19); *_mb_x*/sha*_ni_x*/sha*_opt_x1/md5_mb_x* kernels use a private register convention and are reached through their lane schedulers; self-test and FIPS entry points belong to the FIPS build\",\n";
+        }
         ev += "  \"components_real\":" + real + ",\n  \"components_stub\":" + stub + ",\n";
         ev += "  \"observations_other_properties\":" + obs + ",\n";
         ev += "  \"violations_found\":" + vio + ",\n";
